@@ -8,6 +8,22 @@ From Flocq Require Import Core.Raux.
 From Verif Require Import gen.Scales lib.Cert lib.C07_Base C07.Model C07.Forms.
 Open Scope R_scope.
 
+(* factorials as binary integers (INR (fact 14) in unary nat is out of reach) *)
+Fixpoint Zfact (k : nat) : Z :=
+  match k with O => 1%Z | S j => (Z.of_nat (S j) * Zfact j)%Z end.
+Lemma INR_fact_Z k : INR (fact k) = IZR (Zfact k).
+Proof.
+  induction k as [|k IH].
+  - reflexivity.
+  - change (fact (S k)) with (S k * fact k)%nat. rewrite mult_INR, IH.
+    change (Zfact (S k)) with (Z.of_nat (S k) * Zfact k)%Z. rewrite mult_IZR, <- INR_IZR_INZ. reflexivity.
+Qed.
+Ltac fact_literals :=
+  repeat match goal with
+         | |- context [INR (fact ?k)] =>
+           rewrite (INR_fact_Z k); let v := eval vm_compute in (Zfact k) in change (Zfact k) with v
+         end.
+
 Ltac c07_unfold :=
   cbv beta iota zeta delta
     [bank_edge gabor_std gabor_bandwidth_const gabor_diff_ang gabor_f_support_const
@@ -15,7 +31,8 @@ Ltac c07_unfold :=
      gabor_fr_term gt_alpha_const gt_log_alpha gt_log_c gt_offset gt_supp_a gt_diff_ang
      gt_newton_start h2a a2h tri_K_real fbank_K_real tri_div_term tri_denom0 tri_denom tri_num_re tri_num_im
      tri_numer0 gt_H_mag gt_H_arg mel_h2s mel_s2h linear_h2s linear_s2h octave_h2s octave_s2h];
-  cbn [INR fact Nat.sub Nat.mul Nat.add].
+  fact_literals;
+  cbn [INR Nat.sub Nat.mul Nat.add].
 
 Ltac c07 := c07_unfold; cert.
 
